@@ -4,6 +4,7 @@
 //! usage: extract <repo-root> <out.lean> <out.json>
 
 mod features;
+mod macros;
 mod rs2lean;
 mod shapes;
 
@@ -375,6 +376,7 @@ fn main() {
     extract_graph_fns(&repo, &mut out);
     shapes::extract_all(&repo, &mut out);
     features::extract_features(&repo, &mut out);
+    macros::extract_macros(&repo, &mut out);
     out.lean.push_str("\nend Rsactor.Extracted\n");
     std::fs::write(&args[2], &out.lean).expect("write lean");
     let mut j = String::from("{\n");
